@@ -124,6 +124,9 @@ class Gen:
             elif k < 0.6:
                 s = s[:i] + chr(rnd.choice([rnd.randrange(32, 127), rnd.randrange(0x80, 0x3000), rnd.randrange(0x3000, 0xd800),
                                             rnd.randrange(0xe000, 0xffff), rnd.randrange(0x10000, 0x1ffff)])) + s[i + 1:]
+            elif k < 0.65:
+                # punctuation glued or hung onto the end (after a clock time, a year, a word)
+                s = s + rnd.choice([".", ",", ":", " .", "..", "-", "/", ";", ".:", ":.", " -", "'", ")", "(", "?"])
             elif k < 0.7:
                 s = s + " " + rnd.choice(self.corpus)
             elif k < 0.8:
@@ -233,7 +236,10 @@ EDGE = ["0001-01-01 00:00", "0001-01-01 00:00:00.000001", "0001-01-01 13:00", "0
         "9999-12-31 23:59:59.999999", "9999-12-31 10:00", "9999-12-30 23:00", "9999-01-01", "1 January 0001",
         "31 December 9999 11:59 PM", "January 1", "Dec 31", "December", "January", "Monday", "Sunday", "23:59", "00:00", "31 12 99",
         "01/01/01", "9999", "0001", "1", "12 9999", "9999-12", "0001-01", "29 February", "Feb 29 0004", "99991231", "00010101",
-        "31.12.9999", "1.1.1", "0001-01-01T00:00:00Z", "9999-12-31T23:59:59.999999+00:00"]
+        "31.12.9999", "1.1.1", "0001-01-01T00:00:00Z", "9999-12-31T23:59:59.999999+00:00",
+        # a clock time (or a number) followed by a separator and nothing else
+        "12 May 2015 10:30.", "10:30.", "23:59:59 .", "1:2..", "10:30,", "10:30:", "12 May 2015 10:30:15.", "10:30 .5", "10.30.",
+        "12:", ":12", "12:30:", "1:1:1:1.", "10:30-", "10:30+", "10:30 +", "May 2015.", "2015.", "12.05.2015."]
 OFFS = ["", " +0000", " -0500", " +1400", " -1200", " EST", " UTC", " Z", " +05:30", " GMT+2", " PST", " AEST", " UTC-12:00"]
 REL = ["in 1 day", "1 day ago", "in 1 month", "1 year ago", "in 1 decade", "tomorrow", "yesterday", "now", "in 24 hours",
        "1 second ago", "in 5000 years", "9999 years ago", "in 1 week", "next year", "last month", "2 hours ago EST",
